@@ -391,7 +391,7 @@ Wheel Speed Output @ {str(self.p1_time)}
     def to_numpy(cls, messages):
         result = {
             'p1_time': np.array([float(m.p1_time) for m in messages]),
-            'data_source': np.array([m.gear for m in messages], dtype=int),
+            'data_source': np.array([m.data_source for m in messages], dtype=int),
             'gear': np.array([m.gear for m in messages], dtype=int),
             'is_signed': np.array([m.is_signed() for m in messages], dtype=bool),
             'front_left_speed_mps': np.array([m.front_left_speed_mps for m in messages]),
@@ -648,7 +648,7 @@ Vehicle Speed Output @ {str(self.p1_time)}
     def to_numpy(cls, messages):
         result = {
             'p1_time': np.array([float(m.p1_time) for m in messages]),
-            'data_source': np.array([m.gear for m in messages], dtype=int),
+            'data_source': np.array([m.data_source for m in messages], dtype=int),
             'gear': np.array([m.gear for m in messages], dtype=int),
             'is_signed': np.array([m.is_signed() for m in messages], dtype=bool),
             'vehicle_speed_mps': np.array([m.vehicle_speed_mps for m in messages]),
